@@ -1,2 +1,272 @@
-import FpgoVerif.Model.C04
-/-! Property theorems for C04 (none yet). -/
+import FpgoVerif.Proofs.C04Step
+import FpgoVerif.Gen.StreamEffects
+/-! Property theorems for C04 — Stream / Set / StreamSet are persistent.
+
+    All statements are about the definitions the driver executes (`step`/`exec` of `Model/C04Proto`, the
+    world operations of `Model/C04World`), for BOTH families (`iface : Bool`), every operation of the
+    alphabet, all operands, all element lists, all indices.
+
+    * `Inv st`      — the world is well-formed (no dangling reference) and every live handle is valid;
+    * `Le w w'`     — `w'` extends `w`: all backing arrays, stream cells, map objects and set cells of `w` are
+                      still there, unchanged (objects were only added);
+    * `content w h` — the elements a handle denotes (arrays: shown part and the part up to cap; streams: the
+                      sequence; sets: key-sorted entries, stream values by their sequence). -/
+namespace FpgoVerif.C04
+open World
+
+/-- Well-formedness and validity of all live handles are preserved by EVERY operation (mutators and
+    out-of-range / nil / ill-typed operands included). -/
+theorem C04_step_inv (iface : Bool) {st : State} (hi : Inv st) (op : Op) : Inv (step iface st op).1 := by
+  have h := exec_ok iface hi op
+  unfold step
+  cases hr : exec iface st op with
+  | err e => simpa using hi
+  | ok w new out =>
+    rw [hr] at h
+    refine ⟨h.1, ?_⟩
+    intro e he
+    simp only [List.mem_append] at he
+    rcases he with he | he
+    · exact Handle.ok_grow h.2.1 (hi.env e he)
+    · exact h.2.2.1 e (by simpa using he)
+
+/-- One step of persistence: an operation that is not a documented mutator (`Set`, interface{} `Remove`)
+    nor a write of the caller through its own slice only ADDS objects to the world. -/
+theorem C04_step_extends (iface : Bool) {st : State} (hi : Inv st) (op : Op) (hm : op.isMutator iface = false) :
+    Le st.w (step iface st op).1.w := by
+  have h := exec_ok iface hi op
+  unfold step
+  cases hr : exec iface st op with
+  | err e => exact Le.refl _
+  | ok w new out => rw [hr] at h; exact h.2.2.2 hm
+
+/-- … hence the receiver, the arguments and all earlier results — every live handle, and indeed every valid
+    handle whether or not it is still named — hold exactly the elements they held before. -/
+theorem C04_step_persistent (iface : Bool) {st : State} (hi : Inv st) (op : Op) (hm : op.isMutator iface = false)
+    {x : Handle} (hx : x.ok st.w) : content (step iface st op).1.w x = content st.w x :=
+  content_le hi.wf (C04_step_extends iface hi op hm) hx
+
+/-- every state reachable by any program from the empty state satisfies the invariant -/
+theorem C04_reachable_inv (iface : Bool) (ops : List Op) {st : State} (hi : Inv st) : Inv (run iface st ops) := by
+  induction ops generalizing st with
+  | nil => exact hi
+  | cons o t ih => exact ih (C04_step_inv iface hi o)
+
+/-- persistence across a block of non-mutating operations, from any invariant state -/
+theorem C04_run_persistent (iface : Bool) (mid : List Op) (hmid : ∀ o ∈ mid, o.isMutator iface = false) :
+    ∀ {st : State}, Inv st → ∀ {x : Handle}, x.ok st.w → content (run iface st mid).w x = content st.w x := by
+  induction mid with
+  | nil => intro st _ x _; rfl
+  | cons o t ih =>
+    intro st hi x hx
+    have ho := hmid o (List.mem_cons_self ..)
+    have hi' := C04_step_inv iface hi o
+    have hx' : x.ok (step iface st o).1.w := Handle.ok_le (C04_step_extends iface hi o ho) hx
+    have := ih (fun o' h' => hmid o' (List.mem_cons_of_mem _ h')) hi' hx'
+    simp only [run, List.foldl_cons] at this ⊢
+    rw [this]
+    exact C04_step_persistent iface hi o ho hx
+
+/-- Persistence over operation histories: after ANY program `pre` (mutators included), every handle that is
+    live keeps its contents across ANY continuation made of non-mutating operations — each earlier
+    collection after every later operation. -/
+theorem C04_program (iface : Bool) (pre mid : List Op) (hmid : ∀ o ∈ mid, o.isMutator iface = false)
+    {x : Handle} (hx : x.ok (run iface State.init pre).w) :
+    content (run iface State.init (pre ++ mid)).w x = content (run iface State.init pre).w x := by
+  have hpre := C04_reachable_inv iface pre Inv.init
+  have hrun : run iface State.init (pre ++ mid) = run iface (run iface State.init pre) mid := by
+    simp [run, List.foldl_append]
+  rw [hrun]
+  exact C04_run_persistent iface mid hmid hpre hx
+
+/-- all live handles of a reachable state are valid (so `C04_program` applies to each of them) -/
+theorem C04_live_handles_valid (iface : Bool) (pre : List Op) :
+    ∀ e ∈ (run iface State.init pre).env, e.2.ok (run iface State.init pre).w :=
+  (C04_reachable_inv iface pre Inv.init).env
+
+/-! ### the documented mutators -/
+
+/-- `Set` on a set / stream set touches map objects only: every array and every stream keeps its elements. -/
+theorem C04_set_touches_maps_only {w w' : World} (hw : Wf w) {p : Nat} {k : Int} {v : Val} (hv : valOk w v)
+    (h : w.setSet p k v = some w') : w'.arrs = w.arrs ∧ w'.strs = w.strs ∧ w'.sets = w.sets ∧ Wf w' :=
+  let r := setSet_wf hw hv h; ⟨r.2.1, r.2.2.1, r.2.2.2, r.1⟩
+
+/-- `Set` stores exactly the given entry in the receiver's map (the receiver is the only set cell written —
+    other set cells change only if they hold the same map object). -/
+theorem C04_set_result {w w' : World} {p r : Nat} {k : Int} {v : Val} (hr : w.sets.getD p none = some r)
+    (hlt : r < w.maps.length) (h : w.setSet p k v = some w') : w'.setMap p = Spec.insert k v (w.setMap p) := by
+  unfold setSet at h
+  rw [hr] at h
+  cases h
+  have hr' : w.sets[p]?.getD none = some r := by simpa [List.getD_eq_getElem?_getD] using hr
+  simp [setMap, writeMap, mapAt, List.getD_eq_getElem?_getD, List.getElem?_set, hlt, hr']
+
+/-- a write of the caller through one of its slices changes one backing array only: slices over any other
+    array (in particular every `ToArray` result, see `C04_toArray_detached`) are not affected -/
+theorem C04_write_touches_one_array (w : World) (a pos : Nat) (l : List Int) {s : Slice} (hs : s.arr ≠ a) :
+    (w.writeArr a pos l).sliceContent s = w.sliceContent s := by
+  simp [sliceContent, arrAt, writeArr, List.getD_eq_getElem?_getD, List.getElem?_set, Ne.symm hs]
+
+/-- interface{} `Remove(i)` returns its receiver (same cell), keeps the world well-formed, creates no
+    stream cell and touches no set cell. -/
+theorem C04_ifaceRemove_returns_receiver {w : World} (hw : Wf w) {p : Nat} (hp : p < w.strs.length) (i : Int) :
+    (w.strRemoveI p i).2 = p ∧ Wf (w.strRemoveI p i).1 ∧ (w.strRemoveI p i).1.sets = w.sets :=
+  let r := strRemoveI_wf hw hp i; ⟨r.2.1, r.1, r.2.2.2.1⟩
+
+/-- interface{} `Remove(i)` writes at most ONE existing backing array — the receiver's — and ONE stream cell —
+    the receiver: every other array (hence every slice/stream over another array) and every other stream
+    header is exactly what it was; map objects and set cells are not touched at all. -/
+theorem C04_ifaceRemove_frame (w : World) (p : Nat) (i : Int) :
+    (∀ a, a ≠ (w.strHdr p).arr → a < w.arrs.length → (w.strRemoveI p i).1.arrAt a = w.arrAt a) ∧
+    (∀ q, q ≠ p → (w.strRemoveI p i).1.strHdr q = w.strHdr q) ∧
+    (w.strRemoveI p i).1.maps = w.maps ∧ (w.strRemoveI p i).1.sets = w.sets := by
+  unfold strRemoveI
+  simp only
+  split
+  · unfold appendSlice
+    split
+    · refine ⟨?_, ?_, rfl, rfl⟩
+      · intro a ha _
+        simp [setStrHdr, writeArr, arrAt, List.getD_eq_getElem?_getD, Ne.symm ha]
+      · intro q hq
+        simp [setStrHdr, writeArr, strHdr, List.getD_eq_getElem?_getD, Ne.symm hq]
+    · refine ⟨?_, ?_, rfl, rfl⟩
+      · intro a _ hlt
+        simp [setStrHdr, allocArr, arrAt, List.getD_eq_getElem?_getD, List.getElem?_append_left hlt]
+      · intro q hq
+        simp [setStrHdr, allocArr, strHdr, List.getD_eq_getElem?_getD, Ne.symm hq]
+  · exact ⟨fun _ _ _ => rfl, fun _ _ => rfl, rfl, rfl⟩
+
+/-! ### results: the elements the sequence definition prescribes -/
+
+theorem C04_newStream_content (w : World) (l : List Int) (tail : Nat) :
+    (w.newStream l tail).1.strContent (w.newStream l tail).2 = l := by
+  simp [newStream, allocArr, allocStr, strContent, strHdr, sliceContent, arrAt, List.getD_eq_getElem?_getD]
+
+/-- `Map`, `Filter`, `Reject`, `FilterNotNil`, `Distinct`, `Reverse` and the generic `Remove` return a NEW
+    stream holding exactly the prescribed sequence. -/
+theorem C04_stream_results (w : World) (p : Nat) :
+    (∀ f, (w.strMap p f).1.strContent (w.strMap p f).2 = Spec.mapIdx f (w.strContent p)) ∧
+    (∀ pr, (w.strFilter p pr).1.strContent (w.strFilter p pr).2 = Spec.filterIdx pr (w.strContent p)) ∧
+    ((w.strDistinct p).1.strContent (w.strDistinct p).2 = Spec.distinct (w.strContent p)) ∧
+    ((w.strReverse p).1.strContent (w.strReverse p).2 = (w.strContent p).reverse) :=
+  ⟨fun _ => C04_newStream_content _ _ _, fun _ => C04_newStream_content _ _ _, C04_newStream_content _ _ _,
+   C04_newStream_content _ _ _⟩
+
+/-- `Minus` / `RemoveItem` / `Intersection` / `Extend` / generic `Remove`: the prescribed sequence, whether
+    the result is a new stream or (empty argument, index out of range) the receiver itself. -/
+theorem C04_stream_results_binary (w : World) (p : Nat) :
+    (∀ q, (w.strMinus p (some q)).1.strContent (w.strMinus p (some q)).2 =
+        if (w.strHdr q).len = 0 then w.strContent p else Spec.minus (w.strContent p) (w.strContent q)) ∧
+    (∀ q, (w.strInter p (some q)).1.strContent (w.strInter p (some q)).2 =
+        if (w.strHdr q).len = 0 then [] else Spec.inter (w.strContent p) (w.strContent q)) ∧
+    (∀ items, (w.strRemoveItem p items).1.strContent (w.strRemoveItem p items).2 =
+        if items.isEmpty then w.strContent p else Spec.minus (w.strContent p) items) ∧
+    (∀ i, (w.strRemoveG p i).1.strContent (w.strRemoveG p i).2 =
+        if 0 ≤ i ∧ i < (w.strHdr p).len then (w.strContent p).eraseIdx i.toNat else w.strContent p) := by
+  refine ⟨?_, ?_, ?_, ?_⟩
+  · intro q; simp only [strMinus]; split
+    · rfl
+    · exact C04_newStream_content _ _ _
+  · intro q; simp only [strInter]; split
+    · simp [newNilStream, allocStr, strContent, strHdr, sliceContent, Slice.nil, List.getD_eq_getElem?_getD]
+    · exact C04_newStream_content _ _ _
+  · intro items; simp only [strRemoveItem]; split
+    · rfl
+    · exact C04_newStream_content _ _ _
+  · intro i; simp only [strRemoveG]; split
+    · exact C04_newStream_content _ _ _
+    · rfl
+
+/-- `ToArray` returns a detached copy: a backing array that did not exist before (so no existing stream,
+    slice or set can see a write through it — `C04_write_touches_one_array`), holding the stream's elements. -/
+theorem C04_toArray_detached (w : World) (p : Nat) :
+    (w.strToArray p).2.arr = w.arrs.length ∧
+    (w.strToArray p).1.sliceContent (w.strToArray p).2 = w.strContent p := by
+  constructor
+  · rfl
+  · have h : (w.strToArray p).1.arrAt w.arrs.length = w.sliceContent (w.strHdr p) := by
+      simp [strToArray, dupSlice, allocArr, arrAt, List.getD_eq_getElem?_getD]
+    show (((w.strToArray p).1.arrAt w.arrs.length).drop 0).take (w.sliceContent (w.strHdr p)).length = _
+    rw [h]; simp [strContent]
+
+/-- `Clone` likewise: new cell, new array, same elements. -/
+theorem C04_clone_detached (w : World) (p : Nat) :
+    (w.strClone p).2 = w.strs.length ∧ ((w.strClone p).1.strHdr (w.strClone p).2).arr = w.arrs.length ∧
+    (w.strClone p).1.strContent (w.strClone p).2 = w.strContent p := by
+  refine ⟨rfl, ?_, ?_⟩
+  · simp [strClone, dupSlice, allocArr, allocStr, strHdr, List.getD_eq_getElem?_getD]
+  · have hh : (w.strClone p).1.strHdr (w.strClone p).2
+        = ⟨w.arrs.length, 0, (w.sliceContent (w.strHdr p)).length, (w.sliceContent (w.strHdr p)).length⟩ := by
+      simp [strClone, dupSlice, allocArr, allocStr, strHdr, List.getD_eq_getElem?_getD]
+    have h : (w.strClone p).1.arrAt w.arrs.length = w.sliceContent (w.strHdr p) := by
+      simp [strClone, dupSlice, allocArr, allocStr, arrAt, List.getD_eq_getElem?_getD]
+    unfold strContent
+    rw [hh]
+    show (((w.strClone p).1.arrAt w.arrs.length).drop 0).take (w.sliceContent (w.strHdr p)).length = _
+    rw [h]; simp
+
+/-- `Len` agrees with the element sequence whenever the header lies within its backing array (which every
+    header built by the modelled operations does); `Get(i)` and `Contains(x)` are evaluated on the element
+    sequence by definition of `exec`. -/
+theorem C04_len_agrees_partial (w : World) (p : Nat)
+    (hb : (w.strHdr p).off + (w.strHdr p).len ≤ (w.arrAt (w.strHdr p).arr).length) :
+    (w.strContent p).length = (w.strHdr p).len := by
+  simp [strContent, sliceContent, List.length_take, List.length_drop]; omega
+
+/-! ### the regenerated destructive-effect table (`extract/c04.go` → `Gen/StreamEffects.lean`) -/
+
+/-- the only functions allowed to write storage reachable from their receiver / parameters, with exactly these
+    writes: the documented mutators (`Set` ×2, interface{} `Remove`), `SortByIndex`'s sort-then-restore pair
+    (modelled by `strSortByIndex`, undone by `strSortByIndex_arrs`), `fp.Sort` (documented in-place; the
+    stream `Sort`s apply it to a fresh clone, hence have no entry) and `DuplicateSlice`'s append to a
+    zero-capacity view (which cannot write into its argument). -/
+def allowedEffects : List (String × List String) :=
+  [("MapSetDef.Set", ["idx:(*recv)"]),
+   ("SetForInterfaceDef.Set", ["idx:(*recv)"]),
+   ("StreamForInterfaceDef.Remove", ["store:recv", "append:(*recv)[:index]"]),
+   ("StreamDef.SortByIndex", ["sort:*recv", "copy:*recv"]),
+   ("StreamForInterfaceDef.SortByIndex", ["sort:*recv", "copy:*recv"]),
+   ("fp.Sort", ["sort:input"]),
+   ("fp.DuplicateSlice", ["append0:list[:0:0]"])]
+
+/-- Every Stream / MapSet / StreamSet method of both families, every constructor in stream.go /
+    streamForInterface.go and every fp.go helper they call has NO destructive operation on storage reachable
+    from its receiver or parameters — except the entries of `allowedEffects`, with exactly the listed writes.
+    (Kernel evaluation over the table regenerated from the source on every run.) -/
+theorem C04_effects_closed :
+    Gen.streamEffects.all (fun e => e.effects.isEmpty || allowedEffects.contains (e.name, e.effects)) = true := by
+  decide +kernel
+
+/-- the table is not empty and contains the methods the property names -/
+theorem C04_effects_inventory :
+    ["StreamDef.Map", "StreamDef.Filter", "StreamDef.Remove", "StreamDef.SortByIndex", "StreamDef.Append",
+     "StreamDef.Concat", "StreamDef.Extend", "StreamDef.Reverse", "StreamDef.Clone", "StreamDef.ToArray",
+     "StreamForInterfaceDef.Remove", "StreamForInterfaceDef.SortByIndex", "MapSetDef.Add", "MapSetDef.Set",
+     "MapSetDef.Union", "MapSetDef.Minus", "SetForInterfaceDef.Add", "StreamSetDef.Union", "StreamSetDef.MinusStreams",
+     "StreamSetForInterfaceDef.Clone", "fp.Filter", "fp.Reverse", "fp.Concat", "fp.DuplicateSlice"].all
+      (fun n => Gen.streamEffects.any (fun e => e.name == n)) = true := by
+  decide +kernel
+
+/-! ### non-vacuity -/
+
+/-- a non-trivial reachable state: a stream over a caller's array with spare capacity, a set and a stream set -/
+def demoOps : List Op :=
+  [.arr "a0" 3 [1, 2, 1, 9, 9], .sfrom "s0" "a0", .s1 "s1" "s0" (.filter 1), .setFrom "m0" [1, 2],
+   .mset "m0" 1 5, .tfromMap "t0" [(1, some "s0"), (2, none)], .s1 "s2" "s0" (.sortidx 0)]
+
+example : (run false State.init demoOps).env.length = 6 := by decide
+example : Inv (run false State.init demoOps) := C04_reachable_inv false demoOps Inv.init
+/-- `C04_program` instantiated: the receiver `s0` keeps `[1,2,1]` through Filter, …, SortByIndex, Reverse -/
+example : content (run false State.init (demoOps ++ [.s1 "s3" "s0" .reverse])).w (.str (some 0)) = .str [1, 2, 1] := by
+  decide
+example : (Op.s1 "s3" "s0" .reverse).isMutator true = false := rfl
+/-- the hypothesis of `C04_len_agrees_partial` holds e.g. for `s0` above -/
+example : ((run false State.init demoOps).w.strHdr 0).off + ((run false State.init demoOps).w.strHdr 0).len
+    ≤ ((run false State.init demoOps).w.arrAt ((run false State.init demoOps).w.strHdr 0).arr).length := by decide
+/-- the interface{} `Remove` really is a mutator in the model: `[1,2,3].Remove(0)` rewrites the receiver's
+    storage (`a0` becomes `[2,3,3]`) — which is why it is excluded from `C04_step_persistent`. -/
+example : content (run true State.init [.arr "a0" 3 [1, 2, 3], .sfrom "s0" "a0", .s1 "s1" "s0" (.remove 0)]).w
+    (.arr ⟨1, 0, 3, 3⟩ true) = .arr [2, 3, 3] [] := by decide
+
+end FpgoVerif.C04
